@@ -69,7 +69,11 @@ def rels(t):
 
 MEM_SPELL = [lambda v: (v, 'M'), lambda v: (v * 1024, 'K'), lambda v: (v, 'm'), lambda v: (v * 1024, 'k'),
              lambda v: (v // 1024, 'G') if v % 1024 == 0 and v else (v, 'M'),
-             lambda v: (v // 1024, 'g') if v % 1024 == 0 and v else (v, 'M')]
+             lambda v: (v // 1024, 'g') if v % 1024 == 0 and v else (v, 'M'),
+             # decimal two-letter units (size_to_bytes: powers of 1000): smallest mantissa
+             # that still means at least v MB
+             lambda v: (-(-v * 16384 // 15625), 'MB'), lambda v: (-(-v * 16384 // 15625), 'mb'),
+             lambda v: (-(-v * 2048 // 1953125), 'GB') if v >= 954 else (v, 'M')]
 CPU_SPELL = [lambda v: (v, '%'), lambda v: (v, '')]
 
 
@@ -339,6 +343,25 @@ class World:
         zkutils.put(self.admin, z.BLACKEDOUT_APPS, list(patterns))
         masterapi.create_event(self.admin, 0, 'apps_blacklist', None)
 
+    def ev_Running(self, a):
+        """The node reports the instance running (ephemeral /running/<instance>)."""
+        inst = self.names.get(a)
+        if inst is None:
+            return
+        client = self.admin
+        path = z.path.running(inst)
+        if path not in self.store.nodes:
+            zkutils.put(client, path, 'host', ephemeral=True)
+
+    def ev_Stopped(self, a):
+        inst = self.names.get(a)
+        if inst is not None:
+            zkutils.ensure_deleted(self.admin, z.path.running(inst))
+
+    def ev_Integrity(self):
+        """The master's periodic check_integrity() (_check_pending_start)."""
+        self.master.check_integrity()
+
     def ev_Tick(self, n):
         self.v.ticks += n
 
@@ -393,7 +416,7 @@ class World:
     def apply(self, ev, args):
         self.v.step()
         getattr(self, 'ev_' + ev)(*args)
-        if ev not in ('Cycle', 'Restart', 'CrashCycle', 'CrashRestart', 'Tick'):
+        if ev not in ('Cycle', 'Restart', 'CrashCycle', 'CrashRestart', 'Tick', 'Integrity'):
             self.deliver()
 
     # -- projections ---------------------------------------------------------
@@ -431,7 +454,9 @@ class World:
         records = sorted(s for s in self.store.children(z.SERVERS) if nodes[z.path.server(s)].data
                          and nodes[z.path.server(s)].data not in (b'{}', b'null'))
         sched = sorted(self.aname(i) for i in self.store.children(z.SCHEDULED))
-        return dict(placement=pl, presence=presence, records=records, scheduled=sched)
+        running = sorted(self.aname(i) for i in self.store.children(z.RUNNING))
+        return dict(placement=pl, presence=presence, records=records, scheduled=sched,
+                    running=running)
 
     def project(self, m=None):
         m = m or self.master
@@ -453,10 +478,13 @@ class World:
                 demand=[int(x) for x in app.demand], prio=int(app.priority),
                 label=(app.allocation.label if app.allocation is not None and app.allocation.label else ''),
                 traits=bits(app.traits), once=bool(app.schedule_once), evicted=bool(app.evicted),
-                blacklisted=bool(app.blacklisted), lease=int(app.lease))
+                blacklisted=bool(app.blacklisted), lease=int(app.lease),
+                unschedule=bool(app.unschedule))
         groups = {g: dict(count=int(ig.count), available=sorted(int(x) for x in ig.available))
                   for g, ig in m.cell.identity_groups.items()}
-        return dict(alive=True, servers=servers, apps=apps, groups=groups)
+        pending = {self.aname(i): [d['servername'], relms(d['since'])]
+                   for i, d in m.pending_start.items()}
+        return dict(alive=True, servers=servers, apps=apps, groups=groups, pending=pending)
 
 
 def project_sched(w, m=None):
